@@ -281,6 +281,9 @@ def write_evidence(prop, mod, tier, seed, per_sub, nviol, known_hit, wall, harne
         "wall_s": round(wall, 2),
         "violations": int(nviol),
     }
-    os.makedirs(os.path.join(VERIF, "evidence"), exist_ok=True)
-    with open(os.path.join(VERIF, "evidence", prop + ".json"), "w") as fh:
+    # evidence describes runs against /repo itself; runs against a scratch copy (planted
+    # mutations, seeded changes: PYPDE_REPO) must not overwrite it
+    evdir = os.path.join(VERIF, "evidence") if env.REPO == "/repo" else os.path.join(VERIF, ".work", "evidence_scratch")
+    os.makedirs(evdir, exist_ok=True)
+    with open(os.path.join(evdir, prop + ".json"), "w") as fh:
         fh.write(dumps(ev, indent=1))
